@@ -339,3 +339,71 @@ fn crypt_kdf_user_rev2() { kdf_case(2, 5) }
 #[kani::stub(md5::compute, md5_round_spy)]
 #[kani::stub(crate::crypt::Rc4::encrypt, rc4_spy)]
 fn crypt_kdf_user_rev3() { kdf_case(3, 16) }
+
+/// Algorithm 7 (owner password), revision 3 with a 40-bit key: the /O entry is unwrapped with TWENTY RC4 passes (one only in
+/// revision 2), each keyed with the owner key XOR the pass number. Stubs: MD5 contexts/rounds and RC4 are recording stubs;
+/// with them the second password check cannot succeed, so the observable is the sequence of cipher calls.
+static mut RC4_LOG_KEY0: [u8; 64] = [0; 64];
+fn rc4_count_spy(key: &[u8], _data: &mut [u8]) {
+    unsafe { if RC4_CALLS < 64 && !key.is_empty() { RC4_LOG_KEY0[RC4_CALLS] = key[0]; } RC4_CALLS += 1; RC4_KEYLEN = key.len(); }
+}
+#[kani::proof]
+#[kani::stub(std::fmt::format, nofmt)]
+#[kani::stub(std::hash::RandomState::new, fixed_rs)]
+#[kani::stub(md5::Context::new, ctx_new_spy)]
+#[kani::stub(md5::Context::consume, ctx_consume_spy)]
+#[kani::stub(md5::Context::compute, ctx_compute_spy)]
+#[kani::stub(md5::compute, md5_round_spy)]
+#[kani::stub(crate::crypt::Rc4::encrypt, rc4_count_spy)]
+fn crypt_owner_unwrap_rev3_40bit() {
+    let pass: [u8; 4] = kani::any();
+    let o = [0x4fu8; 32]; let id = [0x1du8; 16];
+    #[cfg(kani)]
+    {
+        let u = [0x55u8; 32];      // never matches the stubbed digest: the user-password check fails, the owner path runs
+        let dict = CryptDict {
+            o: PdfString::new(o[..].into()), u: PdfString::new(u[..].into()), r: 3, p: -4, v: 2,
+            bits: 40, crypt_filters: HashMap::new(), default_crypt_filter: None, encrypt_metadata: true,
+            oe: None, ue: None, _other: Dictionary::new(),
+        };
+        unsafe { RND_LEN = 5; }
+        let r = Decoder::from_password(&dict, &id, &pass);
+        std::mem::forget(r);
+        unsafe {
+            // user check (1 + 19 passes), owner unwrap (20 passes), second user check (1 + 19 passes)
+            assert!(RC4_CALLS == 60);
+            assert!(RC4_KEYLEN == 5);
+            // unwrap pass k (calls 20..39) is keyed with digest[0] ^ k
+            let k: usize = kani::any();
+            kani::assume(k < 20);
+            assert!(RC4_LOG_KEY0[20 + k] == DIGEST[0] ^ (k as u8));
+        }
+        std::mem::forget(dict);
+    }
+    #[cfg(verif_replay)]
+    {
+        // native oracle: build /O and /U for (user "u", owner `pass`) with the real md5 crate and a textbook RC4 as Algorithms
+        // 2, 3 and 5 prescribe, then require the real from_password to accept the OWNER password
+        let pad = |p: &[u8]| { let n = p.len().min(32); let mut v = p[..n].to_vec(); v.extend_from_slice(&PADDING[..32 - n]); v };
+        let ks = 5usize;
+        let mut okey = md5::compute(&pad(&pass)).0;
+        for _ in 0..50 { okey = md5::compute(&okey).0; }
+        let mut oval = pad(b"u");
+        for i in 0u8..20 { let k: Vec<u8> = okey[..ks].iter().map(|b| b ^ i).collect(); rc4_ref(&k, &mut oval); }
+        let mut m = pad(b"u"); m.extend_from_slice(&oval); m.extend_from_slice(&(-4i32).to_le_bytes()); m.extend_from_slice(&id);
+        let mut key = md5::compute(&m).0;
+        for _ in 0..50 { key = md5::compute(&key[..ks]).0; }
+        let mut h = PADDING.to_vec(); h.extend_from_slice(&id);
+        let mut ud = md5::compute(&h).0;
+        for i in 0u8..20 { let k: Vec<u8> = key[..ks].iter().map(|b| b ^ i).collect(); rc4_ref(&k, &mut ud); }
+        let mut u = [0u8; 32]; u[..16].copy_from_slice(&ud);
+        let dict = CryptDict {
+            o: PdfString::new(oval[..].into()), u: PdfString::new(u[..].into()), r: 3, p: -4, v: 2,
+            bits: 40, crypt_filters: HashMap::new(), default_crypt_filter: None, encrypt_metadata: true,
+            oe: None, ue: None, _other: Dictionary::new(),
+        };
+        let _ = o;
+        let r = Decoder::from_password(&dict, &id, &pass);
+        assert!(r.is_ok());
+    }
+}
